@@ -312,6 +312,10 @@ func ruleL16(p *Prog, r *Report) {
 				}
 			}
 		}
+		if len(bad) > 0 && exprHasIntParam(sizeV, 0, map[ssa.Value]bool{}) {
+			r.Ok(R, cons, pos, "the size (or part of it) is supplied by the caller: not decided locally")
+			return
+		}
 		switch {
 		case forall && len(bad) == 0:
 			r.Ok(R, cons, pos, "the size starts from the encoded prefix of the object's state")
@@ -554,4 +558,27 @@ func ruleL16(p *Prog, r *Report) {
 		r.Decide(good, R, cons, p.Pos(f.Pos()), "constant part equals the encoder's fixed bytes ("+c.konst+") and the content's size is added", c.typ+"."+c.method+" "+detail+": the reported size would differ from the bytes written")
 	}
 	r.Floor(R, "established sizes", 60, n)
+}
+
+// exprHasIntParam: an integer parameter of the enclosing function is an additive term of the expression.
+func exprHasIntParam(v ssa.Value, depth int, seen map[ssa.Value]bool) bool {
+	if v == nil || depth > 30 || seen[v] {
+		return false
+	}
+	seen[v] = true
+	v = canonConv(v)
+	switch x := v.(type) {
+	case *ssa.Parameter:
+		_, ok := x.Type().Underlying().(*types.Basic)
+		return ok
+	case *ssa.BinOp:
+		return exprHasIntParam(x.X, depth+1, seen) || exprHasIntParam(x.Y, depth+1, seen)
+	case *ssa.Phi:
+		for _, e := range x.Edges {
+			if exprHasIntParam(e, depth+1, seen) {
+				return true
+			}
+		}
+	}
+	return false
 }
